@@ -443,7 +443,13 @@ func (g *repoGen) directed(cfg repoCfg, kind int) []repoOp {
 	tick := repoOp{Kind: "tick"}
 	var ops []repoOp
 	first := func(o repoOp) { ops = append(ops, o) }
-	switch kind % 9 {
+	switch kind % 10 {
+	case 9: // verify_log: an unverifiable first list, a genuine one the refresh cannot verify (no signer stored yet), a forged one;
+		// then a connection presents the genuine signer (the signer-certificate retry looks at the *last* refresh's signature),
+		// a restart under 'verify', and the question what is in force
+		ops = append(ops, repoOp{Kind: "restartcfg", Sig: "verify_log"}, serve(9, 13), hs(7, 13, 1), serve(1, 10), tick,
+			serve([]int{9, 2}[rng.Intn(2)], 14), tick, hs(7, 14, 1), hs(7, 10, 1), repoOp{Kind: "restartcfg", Sig: "verify"},
+			hs(7, 14, 1), hs(7, 10, 1), hs(7, 13, 1))
 	case 8: // verify_log: a verified list, then an unverifiable one (installed), then a restart under 'verify' (disk: found again)
 		ops = append(ops, repoOp{Kind: "restartcfg", Sig: "verify_log"}, serve(1, 10), hs(7, 10, 1),
 			serve([]int{9, 2}[rng.Intn(2)], 13), tick, hs(7, 13, 1), repoOp{Kind: "restartcfg", Sig: "verify"},
@@ -525,7 +531,7 @@ func (g *repoGen) history(cfg repoCfg, n int) []repoOp {
 	rng := g.rng
 	g.hist++
 	if rng.Intn(3) != 0 { // (drawn, not counted: the configuration rotates with the history index)
-		ops = g.directed(cfg, rng.Intn(9))
+		ops = g.directed(cfg, rng.Intn(10))
 		n += len(ops) / 2
 	}
 	cdps := []int{1, 2, 5}
